@@ -100,6 +100,7 @@ PROPS = {
             {'engine': 'verus', 'name': 'add_timestamps', 'tier': 'quick', 'role': "AddTimestamp::next: item stamped with the generator's timestamp, the generator's watermark leaves in the very next call before anything else is pulled, control elements pass through unchanged; DropTimestamp::next: watermarks absorbed, timestamps stripped, the rest unchanged"},
             {'engine': 'verus', 'name': 'iterator_source', 'tier': 'quick', 'role': 'IteratorSource::{next,replication}: every item of the iterator once, in order, then one FlushAndRestart, then Terminate forever; a single replica'},
             {'engine': 'verus', 'name': 'chain_ops', 'tier': 'quick', 'role': 'Map/KeyBy/FilterMap/Filter/Inspect::next and StreamElement::map: one output per surviving input in pull order, kind and timestamp kept, control elements (Watermark, FlushBatch, FlushAndRestart, Terminate) pass through unchanged and are never created or swallowed; filters drop exactly the rejected data elements'},
+            {'engine': 'verus', 'name': 'sinks', 'tier': 'quick', 'role': 'ForEach / CollectCountSink / CollectChannelSink::next: every data element consumed exactly once in arrival order (closure call log, running count, channel log); result published / channel closed exactly at Terminate; control elements forwarded unchanged'},
         ],
         'explanation': 'Verus proof of the per-call contract of Start::next (any number of upstream replicas, any batches): FlushAndRestart is returned exactly when every '
                        'upstream FlushAndRestart of the iteration was consumed (and the per-iteration state restarts), Terminate exactly when every upstream Terminate was consumed, '
@@ -116,6 +117,7 @@ PROPS = {
             {'engine': 'verus', 'name': 'collect_vec', 'tier': 'quick', 'role': 'the sink end of the chain: CollectVecSink::next keeps every data element in arrival order and publishes the whole vector at Terminate'},
             {'engine': 'verus', 'name': 'iterator_source', 'tier': 'quick', 'role': 'IteratorSource::{next,replication}: every item of the iterator once, in order, then one FlushAndRestart, then Terminate forever; a single replica'},
             {'engine': 'verus', 'name': 'chain_ops', 'tier': 'quick', 'role': 'Map/KeyBy/FilterMap/Filter/Inspect::next and StreamElement::map: one output per surviving input in pull order, kind and timestamp kept, control elements (Watermark, FlushBatch, FlushAndRestart, Terminate) pass through unchanged and are never created or swallowed; filters drop exactly the rejected data elements'},
+            {'engine': 'verus', 'name': 'sinks', 'tier': 'quick', 'role': 'ForEach / CollectCountSink / CollectChannelSink::next: every data element consumed exactly once in arrival order (closure call log, running count, channel log); result published / channel closed exactly at Terminate; control elements forwarded unchanged'},
         ],
         'explanation': 'order preservation along a single-replica path: Batcher view equation (Verus), Start::next stream equation (nothing lost, duplicated or reordered between link and chain), End::next appends in arrival order.',
         'assumptions': ['reorder() and sinks/sources: see unit list'],
